@@ -69,6 +69,59 @@ def intruder_class(fmt: str) -> type:
     return _INTRUDERS[fmt]
 
 
+def intruder_nesting(overlay: Any, fmt: str) -> list[str]:  # noqa: ANN401
+    """
+    The application's own format must work through the application overlay's serializer at top level, nested and
+    listed, depth 1 and 2.  The packer writes one byte (0xee) and decodes to a marker, so the expected bytes are
+    known by construction: a nested payload adds a 2-byte length, a list a 1-byte count in front of that.
+    """
+    from ipv8.messaging.lazy_payload import VariablePayload, vp_compile  # noqa: PLC0415
+    if fmt in ("payload", "payload-list"):
+        return []  # the application redefined nesting itself
+    from ipv8.messaging.serialization import Serializable  # noqa: PLC0415
+
+    class leaf(Serializable):  # noqa: N801  (hand-written: VariablePayload treats the name "bits" specially)
+        format_list = [fmt]
+
+        def __init__(self, value: Any) -> None:  # noqa: ANN401
+            self.value = value
+
+        def to_pack_list(self) -> list:
+            return [(fmt, self.value)]
+
+        @classmethod
+        def from_unpack_list(cls, *args: Any) -> Any:  # noqa: ANN401
+            return cls(args[0])
+
+    def wrap(inner: type, kind: str) -> type:
+        return vp_compile(type("C02App" + kind, (VariablePayload,),
+                               {"format_list": [inner if kind == "n" else [inner]], "names": ["held"]}))
+
+    def ref(body: bytes, kind: str) -> bytes:
+        return (b"" if kind == "n" else b"\x01") + len(body).to_bytes(2, "big") + body
+
+    failures = []
+    ser = overlay.serializer
+    for path in ("", "n", "l", "nn", "ln", "nl", "ll"):   # outer kind first
+        cls, inst, want = leaf, leaf("anything"), b"\xee"
+        for kind in reversed(path):
+            outer = wrap(cls, kind)
+            inst, want, cls = outer(inst if kind == "n" else [inst]), ref(want, kind), outer
+        where = {"": "at top level", "n": "nested", "l": "listed", "nn": "nested in a nested payload",
+                 "ln": "nested in a listed payload", "nl": "listed in a nested payload", "ll": "listed in a listed payload"}[path]
+        try:
+            data = ser.pack_serializable(inst)
+            obj, end = ser.unpack_serializable(cls, PREFIX + data + SUFFIX, 1)
+            for kind in path:
+                obj = obj.held if kind == "n" else obj.held[0]
+            if data != want or obj.value != "c02-poison" or end != 1 + len(data):
+                failures.append(f"{where}: encodes to {data.hex()} (expected {want.hex()}), decodes to {obj.value!r}, "
+                                f"end offset {end} of {1 + len(data)}")
+        except Exception as e:  # noqa: BLE001
+            failures.append(f"{where}: raises {type(e).__name__}: {str(e)[:160]}")
+    return failures
+
+
 # ---------------------------------------------------------------------------------------------
 # fingerprints
 # ---------------------------------------------------------------------------------------------
@@ -123,23 +176,42 @@ def format_fingerprint(ser: Serializer, fmt: str) -> tuple[str, str]:
     return h.hexdigest(), sample
 
 
+_FP_WRAPPERS: dict[str, tuple[type, type]] = {}
+
+
+def _fp_wrappers(spec: dom.ClassSpec) -> tuple[type, type]:
+    from ipv8.messaging.lazy_payload import VariablePayload, vp_compile  # noqa: PLC0415
+    if spec.key not in _FP_WRAPPERS:
+        _FP_WRAPPERS[spec.key] = tuple(
+            vp_compile(type("C02Fp" + kind, (VariablePayload,), {"format_list": [fl], "names": ["held"]}))
+            for kind, fl in (("N", spec.cls), ("L", [spec.cls])))
+    return _FP_WRAPPERS[spec.key]
+
+
 def message_fingerprint(ser: Serializer, spec: dom.ClassSpec) -> tuple[str, str]:
-    """(digest, short sample) of encoding and decoding a representative instance of one message class."""
+    """(digest, short sample) of encoding and decoding a representative instance of one message class at top level,
+    nested as payload and as the item of a payload-list."""
     h = hashlib.blake2b(digest_size=12)
     descs = spec.representatives()[0]
-    try:
-        inst = spec.build(descs)
-        enc = ser.pack_serializable(inst)
-    except Exception as e:  # noqa: BLE001
-        return "pack-raises:" + type(e).__name__, f"{spec.name}: pack_serializable raises {type(e).__name__}"
-    h.update(enc)
-    sample = f"{spec.name} encodes to {enc[:24].hex()}{'...' if len(enc) > 24 else ''} ({len(enc)} bytes)"
     raw_tail = bool(spec.ref_format_list) and spec.ref_format_list[-1] == "raw"
-    try:
-        obj, end = ser.unpack_serializable(spec.cls, PREFIX + enc + (b"" if raw_tail else SUFFIX), 1)
-        h.update(repr((sorted(name for name, *_ in spec.compare(descs, obj)), end)).encode())
-    except Exception as e:  # noqa: BLE001
-        h.update(b"unpack-raises:" + type(e).__name__.encode())
+    sample = ""
+    nest_cls, list_cls = _fp_wrappers(spec)
+    for where, cls, make, leaf in (("", spec.cls, lambda i: i, lambda o: o),
+                                   (" nested", nest_cls, nest_cls, lambda o: o.held),
+                                   (" listed", list_cls, lambda i: list_cls([i]), lambda o: o.held[0])):
+        try:
+            enc = ser.pack_serializable(make(spec.build(descs)))
+        except Exception as e:  # noqa: BLE001
+            h.update(f"pack-raises{where}:{type(e).__name__}".encode())
+            sample = sample or f"{spec.name}{where}: pack_serializable raises {type(e).__name__}"
+            continue
+        h.update(len(enc).to_bytes(4, "big") + enc)
+        sample = sample or f"{spec.name} encodes to {enc[:24].hex()}{'...' if len(enc) > 24 else ''} ({len(enc)} bytes)"
+        try:
+            obj, end = ser.unpack_serializable(cls, PREFIX + enc + (b"" if raw_tail and not where else SUFFIX), 1)
+            h.update(repr((sorted(name for name, *_ in spec.compare(descs, leaf(obj))), end)).encode())
+        except Exception as e:  # noqa: BLE001
+            h.update(f"unpack-raises{where}:{type(e).__name__}".encode())
     return h.hexdigest(), sample
 
 
@@ -210,12 +282,12 @@ def _run_config(steps: list) -> dict:
                 own = overlay.serializer.get_packer_for(arg) is overlay.c02_packer
             except KeyError:
                 own = False
-            out["intruders"].append((arg, own))
+            out["intruders"].append((arg, own, intruder_nesting(overlay, arg) if own else []))
     return out
 
 
-def run_config(steps: list) -> dict:
-    """Build the configuration in a forked child and return its observations ({"crash": text} if the child failed)."""
+def in_child(fn, *args) -> dict:  # noqa: ANN001, ANN002
+    """Run ``fn(*args)`` (returning a picklable dict) in a forked child; {"crash": text} if it failed."""
     rfd, wfd = os.pipe()
     pid = os.fork()
     if pid == 0:
@@ -223,7 +295,7 @@ def run_config(steps: list) -> dict:
         try:
             os.close(rfd)
             try:
-                result = _run_config(steps)
+                result = fn(*args)
             except Exception:  # noqa: BLE001
                 result = {"crash": traceback.format_exc()[-1500:]}
             with os.fdopen(wfd, "wb") as f:
@@ -236,8 +308,19 @@ def run_config(steps: list) -> dict:
         data = f.read()
     os.waitpid(pid, 0)
     if not data:
-        return {"crash": f"child for {steps!r} died without a result"}
+        return {"crash": f"child for {args!r} died without a result"}
     return pickle.loads(data)  # noqa: S301
+
+
+def run_config(steps: list) -> dict:
+    """Build the configuration in a forked child and return its observations ({"crash": text} if the child failed)."""
+    return in_child(_run_config, steps)
+
+
+def build_alone(name: str):  # noqa: ANN201
+    """(world, overlay): one shipped overlay constructed alone (call inside a forked child)."""
+    world = simnet.World(("c02-overlay", name))
+    return world, overlays.make(world.add_node("N0", 0), name)
 
 
 # ---------------------------------------------------------------------------------------------
@@ -310,7 +393,12 @@ def compare(steps: list, observed: dict, baselines: dict) -> list[tuple[str, str
         out.append(("sandbox:default-serializer-changed",
                     f"constructing {story} changed the packer table of the process-wide default_serializer "
                     f"(names added / replaced / removed: {', '.join(observed['default_changed'][:8])})"))
-    for fmt, own in observed["intruders"]:
+    for fmt, own, nesting in observed["intruders"]:
+        if nesting:
+            out.append(("overlay-serializer:application-format",
+                        f"constructed in one process: {story}. A payload using the application's own '{fmt}' format does "
+                        f"not survive through the application overlay's serializer {nesting[0]} "
+                        f"({len(nesting)} of 7 positions fail)"))
         if not own:
             out.append(("sandbox:co-resident-format-overwritten",
                         f"constructed in one process: {story}. The application overlay no longer finds its own packer "
